@@ -72,6 +72,7 @@ class IceFabric:
         self.turn = None
         self.turn_suspensions = 0
         self.holds = {}                 # (src node, dst node) -> Link.hold specification
+        self.distinct_credentials = False
         self.heal_at = None
         self.classify = classify_datagram
         self.serial = 0
@@ -84,6 +85,10 @@ class IceFabric:
     def make_connection(self, ice_controlling, components=1, local_username=None, local_password=None, **kw):
         node = NODE.get()
         self.serial += 1
+        if self.distinct_credentials:
+            # an ICE agent per transport with credentials of its own (RFC 8839 allows a description whose media
+            # sections carry different ice-ufrag / ice-pwd); aiortc asks for the first transport's, and is not given them
+            local_username = local_password = None
         c = SimIceConnection(self, node, self.serial, ice_controlling, local_username, local_password)
         self.conns.append(c)
         return c
